@@ -470,6 +470,15 @@ fn exec_inner(line: &str) -> String {
                         buf.set_file_name(OsStr::from_bytes(&a));
                         out.push(hex(buf.as_os_str().as_bytes()));
                     }
+                    ["setext", a] => {
+                        let a = h!(a);
+                        // std panics on an extension that contains a separator: not generated
+                        if a.contains(&b'/') {
+                            return BAD.into();
+                        }
+                        let r = buf.set_extension(OsStr::from_bytes(&a));
+                        out.push(format!("{}:{}", hex(buf.as_os_str().as_bytes()), b01(r)));
+                    }
                     _ => return BAD.into(),
                 }
             }
